@@ -5,20 +5,25 @@ with what was run (confirmation in a scratch worktree; check run through tools/w
 import sys, json, re, shutil, os
 prop, letter, summary, needs, evallog = sys.argv[1:6]
 conflog = sys.argv[6] if len(sys.argv) > 6 else None
-src = f"/tmp/seed_out/{prop}/{letter}"
+# second-round seeds live in /tmp/seed_out/R2_<prop>/<A|B> and are recorded as <prop>-C / <prop>-D
+srcname, srcletter = prop, letter
+if prop.startswith("R2_"):
+    srcname, prop = prop, prop[3:]
+    letter = {"A": "C", "B": "D"}[srcletter]
+src = f"/tmp/seed_out/{srcname}/{srcletter}"
 dst = f"/verif/seeded/{prop}-{letter}"
 os.makedirs(dst, exist_ok=True)
 for f in ("patch.diff", "demo.diff", "notes.md"):
     shutil.copy(f"{src}/{f}", f"{dst}/{f}")
 txt = open(evallog).read()
-m = re.search(rf"#### {prop}/{letter} -> (\S+)\n(.*?)(?=\n#### |\Z)", txt, re.S)
+m = re.search(rf"#### {srcname}/{srcletter} -> (\S+)\n(.*?)(?=\n#### |\Z)", txt, re.S)
 target, body = (m.group(1), m.group(2)) if m else (prop, "")
 sigs = re.findall(r"world=(\S+) check=(\S+)", body)
 detected = "VIOLATION property=" + target in body
 conf = {}
 if conflog:
     c = open(conflog).read()
-    mm = re.search(rf"#### {prop}/{letter}\n(.*?)(?=\n#### |\Z)", c, re.S)
+    mm = re.search(rf"#### {srcname}/{srcletter}\n(.*?)(?=\n#### |\Z)", c, re.S)
     if mm:
         sums = re.findall(r"Summary \[.*?\] (.*)", mm.group(1))
         fails = re.findall(r"FAIL \[.*?\] \(.*?\) (.*)", mm.group(1))
